@@ -624,6 +624,45 @@ fn folds_long<T: Tier + num_traits::Float>(rep: &mut Report) {
         },
     );
 }
+/// products whose factors are all but the identity (float tiers): rotations by 2^-k rad, k up to 60, singly and in lists
+/// of up to 1000 - a product that skips, merges or short-cuts factors it takes for the identity (an approximate
+/// predicate, a tolerance) differs from the left fold here and nowhere else. Bit for bit against the explicit left fold.
+fn folds_near_identity<T: Tier + num_traits::Float>(rep: &mut Report) {
+    let ks: Vec<i32> = vec![4, 10, 16, 20, 22, 24, 26, 30, 36, 44, 52, 56, 60];
+    let ns: [usize; 5] = [1, 2, 3, 7, 1000];
+    rep.cases(
+        "folds/near-identity",
+        T::NAME,
+        &format!("step angles 2^-k rad for k in {:?} x list lengths {:?} (axes cycling x, y, z; every third factor the exact identity): Product over values and references vs the left fold, bit for bit", ks, ns),
+        ks.len() * ns.len(),
+        Guard::states(40).distinct(20),
+        |i, ctx| {
+            let (k, n) = (ks[i / ns.len()], ns[i % ns.len()]);
+            ctx.describe(|| format!("{n} rotations by 2^-{k} rad over {}", T::NAME));
+            ctx.out(&(k, n));
+            let step = num_traits::cast::<f64, T>(2f64.powi(-k)).unwrap();
+            let l: Vec<usize> = (0..n).map(|j| if n > 3 && j % 3 == 2 { 3 } else { j % 3 }).collect();
+            macro_rules! product {
+                ($name:expr, $Ty:ty, $mk:expr) => {{
+                    let items: Vec<$Ty> = l.iter().map(|&a| $mk(a)).collect();
+                    let fold = items.iter().fold(<$Ty>::one(), |a, b| a * *b);
+                    same(ctx, &format!("{}/product/near-identity", $name), "values", &items.iter().copied().product::<$Ty>(), &fold);
+                    same(ctx, &format!("{}/product/near-identity", $name), "references", &items.iter().product::<$Ty>(), &fold);
+                    same(ctx, &format!("{}/product/near-identity", $name), "values (filtered iterator)", &items.iter().copied().filter(|_| true).product::<$Ty>(), &fold);
+                }};
+            }
+            let b3 = |a: usize| -> Basis3<T> { match a { 0 => Rotation3::from_angle_x(Rad(step)), 1 => Rotation3::from_angle_y(Rad(step)), 2 => Rotation3::from_angle_z(Rad(step)), _ => Basis3::one() } };
+            let q = |a: usize| -> Quaternion<T> { match a { 0 => Rotation3::from_angle_x(Rad(step)), 1 => Rotation3::from_angle_y(Rad(step)), 2 => Rotation3::from_angle_z(Rad(step)), _ => Quaternion::one() } };
+            let b2 = |a: usize| -> Basis2<T> { if a == 3 { Basis2::one() } else { Rotation2::from_angle(Rad(if a == 1 { -step } else { step })) } };
+            product!("Basis3", Basis3<T>, b3);
+            product!("Quaternion", Quaternion<T>, q);
+            product!("Basis2", Basis2<T>, b2);
+            product!("Matrix2", Matrix2<T>, |a| { let m: Matrix2<T> = b2(a).into(); m });
+            product!("Matrix3", Matrix3<T>, |a| { let m: Matrix3<T> = b3(a).into(); m });
+            product!("Matrix4", Matrix4<T>, |a| Matrix4::from(q(a)));
+        },
+    );
+}
 fn folds_int<D: Dom>(rep: &mut Report) {
     let ls = lists(3);
     rep.cases("folds/vectors", D::NAME, "every list of length 0..3 over a 3-element alphabet; Sum over values and references", ls.len(), Guard::states(40).distinct(10), |i, ctx| {
@@ -853,6 +892,8 @@ fn main() {
     folds_zero::<f32>(&mut rep);
     folds_long::<f64>(&mut rep);
     folds_long::<f32>(&mut rep);
+    folds_near_identity::<f64>(&mut rep);
+    folds_near_identity::<f32>(&mut rep);
     folds_int::<i32>(&mut rep);
     folds_int::<u8>(&mut rep);
     programs(&mut rep);
